@@ -16,6 +16,7 @@ from ..canon import canon
 from ..engine import seq_iter, seq_shards
 
 ID = "C13"
+LEAN = True  # cases are distinct by construction; see engine.Acc
 RULE = (
     "every token sequence over the 16-token name alphabet (upper/lower/caseless words incl. a brace group holding a control word, digit-led word, special characters "
     "{\\'E}x / {\\'e}x, escapes \\'Ee / \\'ee, space, double space, '~', ',', unbalancing '{' '}' and a bare backslash) up to the "
